@@ -30,6 +30,16 @@ from .passes import (
 ElaboratableType = TypeVar("ElaboratableType", bound=Elaboratables)
 
 
+class RecheckConnTypes(ConnTypes):
+    """Repeat of `ConnTypes`, run after flattening.
+    A class of its own, as each `ElabPass` class skips the modules it has already visited."""
+
+
+class RecheckOrphanage(Orphanage):
+    """Repeat of `Orphanage`, run after flattening.
+    A class of its own, as each `ElabPass` class skips the modules it has already visited."""
+
+
 @datatype
 class Elaborator:
     """
@@ -57,8 +67,8 @@ class Elaborator:
                 #
                 # A couple repeats
                 #
-                ConnTypes,
-                Orphanage,
+                RecheckConnTypes,
+                RecheckOrphanage,
                 #
                 # And final module-marking
                 #
